@@ -585,21 +585,45 @@ inductive Num where
   | inexact                                        -- accepted, but float64 rounding is not modelled
 deriving Repr, DecidableEq, Inhabited
 
-/-- `underscoreOK` for a decimal literal: every underscore sits between two digits -/
-def underscoreOK (s : Str) : Bool :=
-  let rec go (saw : UInt8) : Str → Bool     -- saw: 48 digit, 95 underscore, 33 other/start
-    | [] => saw != 95
-    | c :: r =>
-      if isDigitB c then go 48 r
-      else if c == 95 then (if saw != 48 then false else go 95 r)
-      else if saw == 95 then false else go 33 r
-  go 33 s
+def isHexB (c : UInt8) : Bool := isDigitB c || (97 ≤ c && c ≤ 102)      -- on lower-cased input
+
+/-- `underscoreOK` (strconv) after the optional sign: every underscore follows a digit (or the
+    base prefix, which counts as one) and is followed by a digit; `hex`: a–f are digits -/
+def underscoreOKFrom (hex : Bool) : UInt8 → Str → Bool     -- saw: 48 digit, 95 underscore, 33 other/start
+  | saw, [] => saw != 95
+  | saw, c :: r =>
+    if isDigitB c || (hex && isHexB c) then underscoreOKFrom hex 48 r
+    else if c == 95 then (if saw != 48 then false else underscoreOKFrom hex 95 r)
+    else if saw == 95 then false else underscoreOKFrom hex 33 r
+
+def underscoreOK (body : Str) : Bool :=
+  match body with
+  | 48 :: 120 :: r => underscoreOKFrom true 48 r                        -- "0x": the prefix counts as a digit
+  | 48 :: 98 :: r | 48 :: 111 :: r => underscoreOKFrom false 48 r       -- "0b", "0o"
+  | _ => underscoreOKFrom false 33 body
 
 def stripUnderscore (s : Str) : Str := s.filter (· != 95)
 
-/-- decimal grammar of `readFloat`: sign? digits? ('.' digits?)? ([eE] sign? digits+)?, at least
-    one mantissa digit, underscores only between digits.  Hexadecimal floats are accepted by Go
-    but not modelled (`inexact`). -/
+def hexDigitsVal (ds : Str) : Nat :=
+  ds.foldl (fun a d => a * 16 + (if isDigitB d then d.toNat - 48 else d.toNat - 87)) 0
+
+/-- `[+-]?digits+` with underscores, as an exponent: its value -/
+def expDigits (r : Str) : Option Int :=
+  let (eneg, ed) := match r with | 45 :: x => (true, x) | 43 :: x => (false, x) | x => (false, x)
+  let edd := stripUnderscore ed
+  if edd.isEmpty || !ed.all (fun c => isDigitB c || c == 95) then none
+  else some (if eneg then -(digitsVal edd : Int) else (digitsVal edd : Int))
+
+/-- the grammar of `strconv.ParseFloat` (`readFloat` / `special`), on the lower-cased string:
+    * `[+-]?(inf|infinity)`, `nan` (no sign);
+    * decimal: sign? digits? ('.' digits?)? (e sign? digits+)?, at least one mantissa digit;
+    * hexadecimal: sign? 0x hexdigits? ('.' hexdigits?)? p sign? digits+ — the `p` exponent is
+      mandatory (so `0x10` is not a number), value = mantissa · 2^exponent, kept exactly as
+      m · 10^e (2^-k = 5^k · 10^-k);
+    * underscores only as digit separators (`underscoreOK`); everything must be consumed
+      (`0b11`, `0o17`, `1,5`, ` 5` are not numbers).
+    Outside 15 significant digits / moderate exponents float64 rounding, overflow to a range
+    error and underflow decide: the model answers `inexact` there. -/
 def parseNum (s : Str) : Option Num :=
   let lower := toLowerAscii s
   let (neg, body) := match lower with
@@ -609,16 +633,28 @@ def parseNum (s : Str) : Option Num :=
   if body == ascii "inf" || body == ascii "infinity" then some (.inf neg)
   else if lower == ascii "nan" then some .nan
   else if body.take 2 == ascii "0x" then
-    -- hex float: needs a p exponent; accepted ones are outside the exact domain
     let m := body.drop 2
-    let mant := m.takeWhile (· != 112)
-    let ex := m.dropWhile (· != 112)
-    let isHex (c : UInt8) := isDigitB c || (97 ≤ c && c ≤ 102) || c == 95 || c == 46
-    let exd := match ex.drop 1 with | 45 :: r => r | 43 :: r => r | r => r
-    if !ex.isEmpty && mant.all isHex && mant.any (fun c => isDigitB c || (97 ≤ c && c ≤ 102))
-        && (mant.filter (· == 46)).length ≤ 1 && !exd.isEmpty && exd.all (fun c => isDigitB c || c == 95)
-    then (if (mant ++ exd).any (· == 95) then none else some .inexact)   -- underscore rules for hex: not modelled
-    else none
+    let isHexMant (c : UInt8) := isHexB c || c == 95
+    let ip := m.takeWhile isHexMant
+    let r1 := m.dropWhile isHexMant
+    let (fp, r2) := match r1 with
+      | 46 :: r => (r.takeWhile isHexMant, r.dropWhile isHexMant)
+      | r => ([], r)
+    let mantDigits := stripUnderscore (ip ++ fp)
+    if mantDigits.isEmpty then none else
+    match r2 with
+    | 112 :: r =>
+      match expDigits r with
+      | none => none
+      | some e =>
+        if !underscoreOK body then none else
+        let e2 : Int := e - 4 * ((stripUnderscore fp).length : Int)
+        if e2 > 60 || e2 < -60 then some .inexact else
+        let mant := hexDigitsVal mantDigits
+        let m10 : Nat := if e2 ≥ 0 then mant * 2 ^ e2.toNat else mant * 5 ^ (-e2).toNat
+        if (Nat.toDigits 10 m10).length > 15 then some .inexact
+        else some (.fin neg m10 (if e2 ≥ 0 then 0 else e2))
+    | _ => none
   else
     let isMant (c : UInt8) := isDigitB c || c == 95
     let ip := body.takeWhile isMant
@@ -630,19 +666,13 @@ def parseNum (s : Str) : Option Num :=
     if mantDigits.isEmpty then none else
     let expPart : Option Int := match r2 with
       | [] => some 0
-      | 101 :: r =>
-        let (eneg, ed) := match r with | 45 :: x => (true, x) | 43 :: x => (false, x) | x => (false, x)
-        let edd := stripUnderscore ed
-        if edd.isEmpty || !ed.all isMant then none
-        else some (if eneg then -(digitsVal edd : Int) else (digitsVal edd : Int))
+      | 101 :: r => expDigits r
       | _ => none
     match expPart with
     | none => none
     | some e =>
       if !underscoreOK body then none else
       let sig := mantDigits.dropWhile (· == 48)
-      -- outside 15 significant digits / |exponent| ≤ 25 float64 rounding (and overflow to an
-      -- error) would matter: the model does not decide those
       if sig.length > 15 || e > 25 || e < -25 then some .inexact
       else some (.fin neg (digitsVal mantDigits) (e - (stripUnderscore fp).length))
 
